@@ -44,7 +44,7 @@ TECHNIQUE = ("Coq proof (totality incl. fuel, soundness, completeness of the eng
              "and valid_arg_found proved equal to the parser's counter and flag; round 5: value terminators of options and positionals; "
              "level correspondence) + extracted-model/implementation "
              "correspondence")
-LEVEL_TEXT = ("Machine-checked theorems (Coq 8.16, 83 pinned, all closed under the global context) about a function-by-function "
+LEVEL_TEXT = ("Machine-checked theorems (Coq 8.16, 84 pinned, all closed under the global context) about a function-by-function "
               "model of clap_complete::engine::complete: no panic site is reachable and no fuel runs out for any command, argv "
               "and index (build_full's fuel proved sufficient); in state ValueDone every option/subcommand candidate extends the "
               "word and names an option/alias/subcommand of the level reached by the shadow parse; under assert_app's uniqueness "
@@ -128,7 +128,9 @@ LEVEL_NOTE = ("Trusted: Coq kernel, extraction, OCaml driver, Rust harness, gene
               "premise pos_plain of the positional theorems is necessary).  Known findings C18-infer-subcommands / C18-infer-long-args (round 5, not "
               "repaired): the engine knows neither setting - `p su --<TAB>` (su = sub for the parser) offers an option of `p`, `p --opti sub --<TAB>` "
               "(--opti = --option taking `sub`) offers an option of `sub`, both rejected as unknown (C18_inferred_names_refuted; the oracle reads "
-              "inference instead of giving up on such trees).")
+              "inference instead of giving up on such trees).  Known finding C18-flag-subcommands (an observation since round 1): flag-subcommands are "
+              "neither offered nor followed - `p --sync --<TAB>` offers an option of `p` (C18_flag_subcommands_refuted; the oracle follows `--long-flag` "
+              "and a single `-s`).")
 
 U64_MAX = 2**64 - 1
 BAD_KINDS = {"UnknownArgument", "InvalidSubcommand", "PANIC"}
@@ -174,7 +176,7 @@ def nontrivial(case, impl):
 # ------------------------------------------------------------------------------------------ tree dump decoding
 def node_of(sx):
     """(c xNAME h|v (f ..) (va ..) (aa ..) (a ...)* (c ...)*)"""
-    n = {"name": unhex(sx[1]), "hidden": sx[2] == "h", "flags": set(), "va": [], "aa": [], "args": [], "subs": []}
+    n = {"name": unhex(sx[1]), "hidden": sx[2] == "h", "flags": set(), "va": [], "aa": [], "args": [], "subs": [], "lf": [], "sf": []}
     for it in sx[3:]:
         h = it[0]
         if h == "f":
@@ -183,6 +185,10 @@ def node_of(sx):
             n["va"] = [unhex(x) for x in it[1:]]
         elif h == "aa":
             n["aa"] = [unhex(x) for x in it[1:]]
+        elif h == "lf":
+            n["lf"] = [unhex(x) for x in it[1:]]
+        elif h == "sf":
+            n["sf"] = [chr(int(x)) for x in it[1:]]
         elif h == "a":
             a = {"id": unhex(it[1]), "hidden": it[2] == "h"}
             for f in it[3:]:
@@ -350,6 +356,17 @@ def scan_prefix(root, words, settings=frozenset(), note=None):
             body = w[2:]
             name, eq, _val = body.partition(b"=")
             a, by_inference = find_long_infer(level, name, infer_long)
+            if a is None and not eq and not infer_sub and not infer_long:
+                # a flag-subcommand (`Command::long_flag`): `--name` selects the subcommand that declares it (arguments first)
+                fs = [x for x in level["subs"] if name in x["lf"]]
+                if len(fs) == 1:
+                    note["flagsub"] = True
+                    in_pos = False
+                    seen_arg = False
+                    level = fs[0]
+                    pc = 0
+                    i += 1
+                    continue
             if a is None or a["id"] in (b"help", b"version") or a["flags"] & {"positional"}:
                 return None
             if "reqeq" in a["flags"] and a["max"] > 0:
@@ -381,6 +398,18 @@ def scan_prefix(root, words, settings=frozenset(), note=None):
             chars = ws[1:]
             if chars[0].isdigit():
                 return None
+            if len(chars) == 1 and find_short(level, chars[0]) is None:
+                # a flag-subcommand (`Command::short_flag`) given alone: `-S` selects the subcommand (inside a cluster the rest
+                # of the cluster belongs to the subcommand: not read here)
+                fs = [x for x in level["subs"] if chars[0] in x["sf"]]
+                if len(fs) == 1:
+                    note["flagsub"] = True
+                    in_pos = False
+                    seen_arg = False
+                    level = fs[0]
+                    pc = 0
+                    i += 1
+                    continue
             k = 0
             consumed_next = False
             while k < len(chars):
@@ -479,8 +508,11 @@ def accept_oracle(case, impl):
     (infer_subcommands / infer_long_args - the engine knows neither) belongs to a recorded finding and is tagged"""
     note = {}
     r = accept_oracle_core(case, impl, note)
-    if isinstance(r, str) and note.get("inferred") and not r.startswith("the completion engine panicked"):
-        r += " [%s]" % note["inferred"]
+    if isinstance(r, str) and not r.startswith("the completion engine panicked"):
+        if note.get("flagsub"):
+            r += " [flag-subcommand]"
+        elif note.get("inferred"):
+            r += " [%s]" % note["inferred"]
     return r
 
 
@@ -1204,4 +1236,6 @@ def classify_known(stream, case, impl, failure):
         return "C18-infer-subcommands"
     if isinstance(failure, str) and failure.endswith("[infer-long-args]"):
         return "C18-infer-long-args"
+    if isinstance(failure, str) and failure.endswith("[flag-subcommand]"):
+        return "C18-flag-subcommands"
     return None
